@@ -538,7 +538,24 @@ fn check_case(case: &Case, obs: &mut Obs) -> Verdict {
             Err(p) => return Verdict::Fail(format!("{} without deadline: {}", name, p)),
         };
         execs += 1;
-        let bound_mid = REAL_MID_FACTOR * (n + m) as u64 + 16;
+        // LCS: the rest of one table row plus the flush - linear.  Myers: the rest of ONE search round,
+        // which is at most (2d+2) snakes of at most min(N,M) items with d <= D/2+1 (D = size of the
+        // shortest script, taken from the deadline-free run; sub-boxes need fewer rounds), plus the
+        // linear fallback.  Patience adds hashing and a Myers run over its unique lists whose own edit
+        // distance is only bounded by N+M.  (A flat 8*(N+M) is NOT a theorem for Myers: a long periodic
+        // run reached by 30 diagonals in the same round costs 12*(N+M) after expiry on the unchanged
+        // code - found by a read-only audit, outside the generated families.)
+        let linear = REAL_MID_FACTOR * (n + m) as u64 + 16;
+        let d_exact = {
+            let (dd, ii, _) = events_cost(&e0);
+            (dd + ii) as u64
+        };
+        let round = |d: u64| (d + 4) * (n.min(m) as u64 + 1);
+        let bound_mid = match c.alg {
+            2 => linear,
+            0 => linear + round(d_exact),
+            _ => linear + round((n + m) as u64),
+        };
         let mut points = vec![1u64, total / 3 + 1, total / 2 + 1];
         if let Some(r) = case.ks.first() {
             points.push(pos(*r, total as usize) as u64 + 1);
@@ -549,7 +566,9 @@ fn check_case(case: &Case, obs: &mut Obs) -> Verdict {
             if total == 0 {
                 break;
             }
-            let deadline = Instant::now() + Duration::from_micros(150);
+            // far enough ahead that the chosen comparison is normally reached first (each comparison
+            // of this item type reads the clock: about 50 ns)
+            let deadline = Instant::now() + Duration::from_micros(150) + Duration::from_nanos(100 * at);
             blocking::arm(Some(deadline), at);
             let ev = run(Some(deadline));
             let (after, expired) = (blocking::after(), blocking::expired());
@@ -567,8 +586,8 @@ fn check_case(case: &Case, obs: &mut Obs) -> Verdict {
             }
             if after > bound_mid {
                 return Verdict::Fail(format!(
-                    "{}: {} element comparisons after a real deadline had passed in mid-run (at comparison {} of {}), more than {}*(N+M)+16 = {} (N={}, M={})",
-                    name, after, at, total, REAL_MID_FACTOR, bound_mid, n, m
+                    "{}: {} element comparisons after a real deadline had passed in mid-run (at comparison {} of {}), more than the bound {} = {}*(N+M)+16 plus, for Myers / Patience, the rest of one search round (N={}, M={}, D={})",
+                    name, after, at, total, bound_mid, REAL_MID_FACTOR, n, m, d_exact
                 ));
             }
             obs.class_if(expired && after > 0, "real clock: expiry in mid-run, work went on");
@@ -743,12 +762,12 @@ impl Prop for C07 {
     const ID: &'static str = "C07";
     const LEVEL: &'static str = "fault_enumeration";
     fn rule() -> String {
-        "cases = (algorithm, old, new, ranges, entry point in {algorithms::diff_deadline, diff_slices_deadline}); for each case the number of deadline probes T is learnt with a never-expiring virtual clock and then EVERY expiry index k in 0..=T is executed (T <= 64) or {0..7, T-1, T} plus 16 generated indices (T > 64) ('executions' counts runs). Families: the shared small mixture, unrelated 50-400 item sequences over alphabets 2-6 (many probes), and the Patience anchor/gap family. Oracle per k: C01 stream validator, finish once and last, C02+C09 oracles on capture_diff_deadline and exact carried positions of its stand-alone insertions / deletions (mismatches that the swap repair removes are left to C11/C05), at most 4*(N+M)+16 element comparisons after expiry (counting PartialEq; through capture_diff_deadline, whose clean-up compares items too, at most 8*(N+M)+16; measured maxima under metrics_max), k >= T and never-expiring clock => identical to no deadline; plumbing: TextDiffConfig::deadline / ::timeout / capture_diff_slices_deadline give valid scripts at every k, the ops of capture_diff_deadline when the clock expires at the first probe or never, and consult the clock whenever the direct call does; real clock: a run whose deadline passed before the call makes at most 8*(N+M)+16 comparisons in total (this sees a probe that is consulted too rarely, which probe-indexed time cannot), deadline in the past == expiry at probe 0, a real deadline 150 us ahead that passes in mid-run (an item whose == waits for it at comparison 1, a third, a half and a generated point of the run) leaves a valid script and at most 8*(N+M)+16 later comparisons, deadline one hour ahead == no deadline, a builder on which deadline(past) is set last (alone, after timeout(1 h), after deadline(far)) == expired; wall-clock stage: unrepresentably large timeouts == no deadline (no panic), and a timeout counts from the start of the diff (a builder configured 1.7 s before use with timeout(1.5 s) still gives the exact diff of a tiny input; a mismatch must repeat 3 times). 1 random case in 40 is an expensive input (257-400 items; LCS tables of 66 000-160 000 cells) on which only never-expiring deadlines are executed (virtual, real, capture_diff_deadline, TextDiffConfig::deadline/timeout) and compared with no deadline. Non-trivial = T >= 2 and some expiry index changes the result; distinct = distinct serialized case.".into()
+        "cases = (algorithm, old, new, ranges, entry point in {algorithms::diff_deadline, diff_slices_deadline}); for each case the number of deadline probes T is learnt with a never-expiring virtual clock and then EVERY expiry index k in 0..=T is executed (T <= 64) or {0..7, T-1, T} plus 16 generated indices (T > 64) ('executions' counts runs). Families: the shared small mixture, unrelated 50-400 item sequences over alphabets 2-6 (many probes), and the Patience anchor/gap family. Oracle per k: C01 stream validator, finish once and last, C02+C09 oracles on capture_diff_deadline and exact carried positions of its stand-alone insertions / deletions (mismatches that the swap repair removes are left to C11/C05), at most 4*(N+M)+16 element comparisons after expiry (counting PartialEq; through capture_diff_deadline, whose clean-up compares items too, at most 8*(N+M)+16; measured maxima under metrics_max), k >= T and never-expiring clock => identical to no deadline; plumbing: TextDiffConfig::deadline / ::timeout / capture_diff_slices_deadline give valid scripts at every k, the ops of capture_diff_deadline when the clock expires at the first probe or never, and consult the clock whenever the direct call does; real clock: a run whose deadline passed before the call makes at most 8*(N+M)+16 comparisons in total (this sees a probe that is consulted too rarely, which probe-indexed time cannot), deadline in the past == expiry at probe 0, a real deadline 150 us ahead that passes in mid-run (an item whose == waits for it at comparison 1, a third, a half and a generated point of the run) leaves a valid script and a bounded number of later comparisons (LCS: 8*(N+M)+16; Myers: that plus the rest of one search round, (D+4)*(min(N,M)+1); Patience: plus (N+M+4)*(min(N,M)+1)), deadline one hour ahead == no deadline, a builder on which deadline(past) is set last (alone, after timeout(1 h), after deadline(far)) == expired; wall-clock stage: unrepresentably large timeouts == no deadline (no panic), and a timeout counts from the start of the diff (a builder configured 1.7 s before use with timeout(1.5 s) still gives the exact diff of a tiny input; a mismatch must repeat 3 times). 1 random case in 40 is an expensive input (257-400 items; LCS tables of 66 000-160 000 cells) on which only never-expiring deadlines are executed (virtual, real, capture_diff_deadline, TextDiffConfig::deadline/timeout) and compared with no deadline. Non-trivial = T >= 2 and some expiry index changes the result; distinct = distinct serialized case.".into()
     }
     fn assumptions() -> Vec<String> {
         vec![
             "time is probe-indexed (virtual clock hook): a change that merely probes less often is only observable through the real-clock runs (deadline already passed: total comparison budget; deadline passing in mid-run: comparisons made afterwards)".into(),
-            "the real-clock mid-run bound 8*(N+M)+16 covers the rest of the step the expiry falls into (one Myers round, one LCS row) plus the fallback; measured maximum under metrics_max".into(),
+            "the real-clock mid-run bound is linear for LCS (rest of one row + flush) and adds the worst case of one search round for Myers / Patience, which is not linear in N+M; it therefore decides 'expiry is noticed within one step', and is tight only for LCS and for near-identical inputs".into(),
             "the promptness constant 4 has >= 4x head-room over the measured maximum (about 0.8*(N+M))".into(),
             "wasm32 behaviour is out of scope".into(),
         ]
